@@ -118,7 +118,8 @@ theorem step_inv (hk : KindInv kind cmp P) (eqVal : V → V → Bool) (s s' : St
     exact (foldUntil_partition_inv hk p _ _
       (fun m u hm => by cases hm; exact ⟨hk.nil, hk.nil⟩) m u e0).1
   | size | isEmpty | height | get _ | min | max | floor _ | ceiling _ | rank _ | range _ _
-  | rangeSize _ _ | all | traverse _ _ | equal | anyMatch _ | allMatch _ | firstMatch _ =>
+  | rangeSize _ _ | all | allUntil _ | traverse _ _ | equal | equalOther | anyMatch _ | allMatch _
+  | firstMatch _ =>
     cases he; exact ⟨p1, p2⟩
 
 theorem runFrom_inv (hk : KindInv kind cmp P) (eqVal : V → V → Bool) :
